@@ -116,6 +116,9 @@ type corpusSel struct {
 	Full  bool       `json:"full"`
 	Docs  []int      `json:"docs,omitempty"` // indices into assets()
 	Synth []synthDoc `json:"synth,omitempty"`
+	// ReAdd: every synthetic document is first added with other content under the same category/name/variant and
+	// then added again with its real content (a corpus entry that was replaced).
+	ReAdd bool `json:"readd,omitempty"`
 }
 
 func (s corpusSel) files() []corpusFile {
@@ -148,6 +151,21 @@ func (s corpusSel) files() []corpusFile {
 	return out
 }
 
+// olderRevision: what a replaced corpus entry held before: some words dropped, a sentence in front.
+func olderRevision(content []byte) []byte {
+	w := strings.Fields(string(content))
+	var kept []string
+	for i, x := range w {
+		if i%7 != 3 {
+			kept = append(kept, x)
+		}
+		if i%12 == 11 {
+			kept = append(kept, "\n")
+		}
+	}
+	return []byte("an earlier revision of this entry alpha bravo charlie delta echo foxtrot golf hotel india juliet\n" + strings.Join(kept, " ") + "\n")
+}
+
 func buildClassifier(th float64, files []corpusFile) *Classifier {
 	c := NewClassifier(th)
 	for _, f := range files {
@@ -172,7 +190,13 @@ func classifierFor(th float64, sel corpusSel) *Classifier {
 	if c, ok := clsCache[key]; ok {
 		return c
 	}
-	c := buildClassifier(th, sel.files())
+	c := NewClassifier(th)
+	for _, f := range sel.files() {
+		if sel.ReAdd && (strings.HasPrefix(f.Name, "Synth-") || !sel.Full) {
+			c.AddContent(f.Cat, f.Name, f.Variant, olderRevision(f.Content))
+		}
+		c.AddContent(f.Cat, f.Name, f.Variant, f.Content)
+	}
 	clsCache[key] = c
 	if sel.Full {
 		// full-corpus classifiers are big (about 70 MB): keep only a few
@@ -909,7 +933,7 @@ func genCorpusThr(t *rapid.T, lo float64, fullWeight int) (corpusSel, float64) {
 }
 
 func smallCorpusAround(t *rapid.T, must []int) corpusSel {
-	sel := corpusSel{Docs: append([]int{}, must...)}
+	sel := corpusSel{Docs: append([]int{}, must...), ReAdd: lib.IntN(t, 0, 3, "replacedEntries") == 0}
 	n := lib.IntN(t, 1, 8, "corpusExtra")
 	for i := 0; i < n; i++ {
 		sel.Docs = append(sel.Docs, lib.IntN(t, 0, len(assets())-1, "corpusDoc"))
